@@ -85,8 +85,8 @@ def check(ctx: Ctx, ev: Evidence) -> list[Finding]:
     pairs: set[frozenset] = set()
     for q in sorted(reach):
         fi = prog.functions.get(q)
-        if fi is None or fi.cls != SRC:
-            continue
+        if fi is None:
+            continue  # (any repo function reachable from the NAK entry: the validation may live in a shared helper module)
         for n in ast.walk(fi.node):
             if not isinstance(n, ast.If):
                 continue
